@@ -15,6 +15,7 @@ from .stream import Unaligned
 
 Z3_TIMEOUT_MS = 10000
 CVC5_TIMEOUT_MS = 10000
+PORTFOLIO = ()          # extra z3 seeds tried on 'unknown' (set by the retry pass of main.run)
 
 
 class Task:
@@ -34,8 +35,21 @@ def discharge(ob, timeout_ms=Z3_TIMEOUT_MS, use_cvc5=True):
         s.add(f)
     s.add(z3.Not(zbool(ob.goal)))
     r = s.check()
-    if r == z3.unknown and len(pcs) < len(ob.pc):
-        pass
+    if r == z3.unknown and PORTFOLIO:
+        # the same query under other search seeds: quantifier instantiation order makes solver time erratic, a verdict
+        # must not depend on it (used in the retry pass only)
+        for seed in PORTFOLIO:
+            s2 = z3.Solver()
+            s2.set("timeout", timeout_ms)
+            s2.set("random_seed", seed)
+            s2.set("smt.random_seed", seed)
+            for f in pcs:
+                s2.add(f)
+            s2.add(z3.Not(zbool(ob.goal)))
+            r = s2.check()
+            if r != z3.unknown:
+                s = s2
+                break
     ob.backend = "z3"
     if r == z3.unsat:
         ob.result = "proved"
